@@ -125,4 +125,59 @@ theorem llp_cut_total (L : Nat) (lls : List (List PTDP.State)) (c : Nat) (hfit :
     simp only [cutAfter, List.map_cons, List.sum_cons, List.length_cons, cap] at this ⊢
     rw [Nat.add_mul]; omega
 
+/-! ### review additions: "exactly once" as a permutation, joint witnesses -/
+
+/-- "exactly once" for low-latency traffic, stated as a multiset equality: under the hypotheses of `decap_encap_llp`
+    the low-latency PTDPs sitting in the yielded frames (`lls`, the ones the decapsulator returns) together with those
+    in the frame not yet yielded (`ll`) are a permutation of the input's low-latency packets — none lost, none doubled -/
+theorem llp_each_once (pkts : List (Bytes × Bool)) (L sid : Nat) (hL : 0 < L) (hL2 : L ≤ 2047) (hs : sid < 16)
+    (hno : NoLLPOverflow pkts L sid) :
+    ∃ cur out lls ll, datapktsToPtfr pkts L sid = .ok (cur, out) ∧
+      out = mixFrames L sid (stream (normalPkts pkts)) (Acra.Spec.Ch7.startsAux 0 (encs (normalPkts pkts))) 0 lls ∧
+      (reassemble (decap L (out.map wire)).1.ptdps).filter (fun q => q.2) =
+        lls.flatten.map (fun q => (q.payload, true)) ∧
+      ((lls.flatten ++ ll).map (·.payload)).Perm (llpPkts pkts) := by
+  obtain ⟨cur, out, lls, ll, h, ho, hord, _, _, _, _, hl⟩ := decap_encap_llp pkts L sid hL hL2 hs hno
+  refine ⟨cur, out, lls, ll, h, ho, hl, ?_⟩
+  have hfl : ∀ xs : List (List PTDP.State), xs.flatten.Perm (xs.map List.reverse).flatten := by
+    intro xs
+    induction xs with
+    | nil => simp
+    | cons l r ih =>
+      simp only [List.flatten_cons, List.map_cons]
+      exact List.Perm.append (List.reverse_perm l).symm ih
+  have hp : (lls.flatten ++ ll).Perm (llpOrder lls ll) := by
+    unfold llpOrder
+    exact List.Perm.append (hfl lls) (List.reverse_perm ll).symm
+  have := hp.map (·.payload)
+  rw [hord, List.map_map] at this
+  have e : ((fun q : PTDP.State => q.payload) ∘ llpPtdp) = id := by
+    funext b; simp [llpPtdp, mkPtdp]
+  rwa [e, List.map_id] at this
+
+/-- joint witnesses for the one-insertion / one-frame / cut lemmas: the low-latency PTDP of the packet `[9, 9]`
+    (8 bytes + continuation byte) into an empty 40-byte frame; the frame holding it -/
+example : LlpLayout (newPtfr 40 1) [] [] ∧
+    (encB (llpPtdp [9, 9])).length + 1 + (newPtfr 40 1).payload.length ≤ (newPtfr 40 1).length :=
+  ⟨⟨rfl, rfl, fun h => absurd rfl h⟩, by rw [encB_length]; decide⟩
+example : [llpPtdp [9, 9]] ≠ [] ∧
+    LlpLayout (mixFrame 40 1 [] [] 0 [llpPtdp [9, 9]]) [llpPtdp [9, 9]] (slice [] 0 (0 + cap 40 [llpPtdp [9, 9]])) ∧
+    (∀ p ∈ [llpPtdp [9, 9]], PTDP_WF p) ∧ ((true : Bool) = true → ([] : Bytes) = []) :=
+  ⟨by simp, (llp_frame_layout 40 1 [] [] 0 [llpPtdp [9, 9]]).1, by simp [PTDP_WF, llpPtdp, mkPtdp, PTDP_FRAGMENT_COMPLETE, PTDP_CONTENT_MAC], fun _ => rfl⟩
+example : ∀ l ∈ [[llpPtdp [9, 9]]], (llpBytes l).length ≤ 40 := by
+  intro l hl; simp only [List.mem_singleton] at hl; subst hl
+  simp [llpBytes, encB_length, llpPtdp, mkPtdp]
+/-- the hypotheses of `decap_encap_llp` / `llp_encap_invariant` / `llp_each_once` together, on the mixed sequence above -/
+example : (0 : Nat) < 40 ∧ 40 ≤ 2047 ∧ (1 : Nat) < 16 ∧ NoLLPOverflow
+    [([1, 2, 3], false), ([9, 9], true), (List.replicate 40 7, false), ([], true), ([5], true), ([4, 4], false)]
+    40 1 := by decide +kernel
+/-- … two frames are yielded for it, the first flagged LLP with offset 9 (= one 8-byte low-latency PTDP + 0x00), the
+    second flagged with offset 15 (= `[5]` 7+1 and `[]` 6+1, the later insertion in front) -/
+example : ((datapktsToPtfr
+    [([1, 2, 3], false), ([9, 9], true), (List.replicate 40 7, false), ([], true), ([5], true), ([4, 4], false)]
+    40 1).toOption.map fun r => r.2.map fun f => (f.llp, f.ptdp_offset, f.payload.length)) =
+    some [(true, 9, 40), (true, 15, 40)] := by decide +kernel
+/-- low-latency packet arriving on an EMPTY frame and on an exactly-LLP-holding frame also satisfy the hypothesis -/
+example : NoLLPOverflow [([9, 9], true), ([5], true), ([1, 2, 3], false)] 30 1 := by decide +kernel
+
 end Acra.Props.C10
